@@ -332,8 +332,9 @@ func (k *Kit) Abort(p *Peer) {
 	p.Conn.UnderlyingConn().Close()
 	p.Stall(false)
 	if p.Refused == "" {
-		// a drop by the hub's own doing (eviction) may already have happened; the reader's exit adds one more call
-		k.Hooks.Wait("hub.afterDrop", p.BID, before+1, k.Slack)
+		// a drop by the hub's own doing (eviction) may already have happened, and so may the one that
+		// follows the relay's reader giving up (the relay had closed the socket itself): do not wait long
+		k.Hooks.Wait("hub.afterDrop", p.BID, before+1, 300*time.Millisecond)
 	}
 	select {
 	case <-p.readerDone:
